@@ -221,6 +221,11 @@ def field_codec(msg, f, ptype, later_oneof):
     if later_oneof:
         cond = ' || '.join(f'm.{wire.ident(g)}.isSome' for g in later_oneof)
         e = f'(if {cond} then [] else {e})'
+    if real_oneof(f):
+        if not o or not f.has_presence:
+            raise Untranslatable(f'{msg}.{f.name}: a oneof member of this type has no last-member-wins reader')
+        members = '[' + ', '.join(str(g.number) for g in sorted(f.containing_oneof.fields, key=lambda g: g.number)) + ']'
+        d = f'oneofPick {members} {n} rs ({d})'
     return e, d, o
 
 
